@@ -287,6 +287,14 @@ def run(ck: Checker):
         res_calls = [n for n in walk_shallow_func(outer.node) if isinstance(n, ast.Call) and method_of(n)[1] == 'result']
         ok = len(pn) == len(cn) and bool(res_calls) and is_name(method_of(res_calls[0])[0], cn[1])
     ck.ob('C18-7', outer, cons_t[0] if cons_t else outer.node, ok, f'consumer unpacks {cn} in the producer\'s order {pn} and waits on the future component' if ok else 'consumer unpack does not agree with the producer tuple / does not wait on the future component')
+    # ------------------------------------------------------------------ C18-11
+    # the client's pending-request queue and the stream hand-off are SingleLane objects, fed by any number of requester threads
+    from . import c01, c09
+    from .common import QUEUES
+
+    with ck.as_rule('C18-11', 'the queues under the socket client cannot lose an element or a wake-up with any number of requester threads: the SingleLane obligations (C01-4 incl. one unconditional notify per operation, C09-6)', minimum=3):
+        c01.check_singlelane(ck, 'C01-4')
+        c09.check_wait_discipline(ck, 'C09-6', modules=(QUEUES,), minimum=2)
     # ------------------------------------------------------------------ C18-10
     ck.rule('C18-10', 'connection / enqueue / response timeouts of the socket client and the poll timeout of read_record reach their uses as given: re-bound only under `is None`, never replaced through truthiness (GUARD)', minimum=4)
     from .common import check_timeout_passthrough
